@@ -341,7 +341,7 @@ impl<'a> LiveEvents<'a> {
             #[cfg(serde_saphyr_verif)]
             {
                 verif_pulls += 1;
-                if verif_pulls > 20_000_000 {
+                if verif_pulls > 2_000_000 {
                     panic!("serde_saphyr_verif liveness: next_impl skipped {verif_pulls} markers in a row");
                 }
             }
@@ -839,7 +839,7 @@ impl<'a> LiveEvents<'a> {
             #[cfg(serde_saphyr_verif)]
             {
                 verif_pulls += 1;
-                if verif_pulls > 20_000_000 {
+                if verif_pulls > 2_000_000 {
                     panic!("serde_saphyr_verif liveness: skip_to_next_document pulled {verif_pulls} items");
                 }
             }
